@@ -24,6 +24,15 @@ Theorem C02_receipt_plain :
              /\ h_deliv s' = ddel (rc_id r) (h_deliv s) /\ h_corr s' = h_corr s.
 Proof. exact receipt_plain. Qed.
 
+(* ... in ANY state of the segment bookkeeping: the sequence number of an unsegmented message may by now belong to a segment
+   of a newer message (numbers come round again after a restart); its receipt is still its own and the bookkeeping is untouched *)
+Theorem C02_receipt_unsegmented :
+  forall s r e,
+  dget (rc_id r) (h_deliv s) = Some e -> is_segment (e_msg e) = false ->
+  exists s', handle_receipt s r true = (s', [HReceipt (rc_uid r) (sm_log (e_msg e))])
+             /\ h_deliv s' = ddel (rc_id r) (h_deliv s) /\ h_corr s' = h_corr s.
+Proof. exact receipt_unsegmented. Qed.
+
 (* unknown ids and receipts without id are handed over with empty identity; nothing changes *)
 Theorem C02_receipt_unknown :
   (forall s r, dget (rc_id r) (h_deliv s) = None -> handle_receipt s r true = (s, [HReceipt (rc_uid r) 0]))
